@@ -2,8 +2,12 @@
 (glue/core/hub.py, hub_callback_container.py, message.py).
 
 A case is a class tree, a table of handler scripts and a top-level script.  Scripts are lists of actions
-    ('B', id, cls)  ('D', body)  ('I', cls, body)  ('S', listener, cls, handler, filter, priority)
+    ('B', id, cls)  ('Bf', id, cls)  ('D', body)  ('I', cls, body)  ('S', listener, cls, handler, filter, priority)
     ('U', listener, cls)  ('UA', listener)  ('R',)
+A broadcast is an event; its message is identified by (id, cls).  'B' re-broadcasts ONE kept Message object per (id, cls)
+(the same object every time that identity recurs in the case: a sender that keeps its message around), 'Bf' creates a fresh
+object with the same tag each time (equal-looking, distinct).  Model and reference do not distinguish the two: every broadcast
+event is delivered on its own, whatever object carries it.
 The same case is run three ways:
   * real      : a real Hub, real Message subclasses, real HubListeners whose handlers interpret the scripts
   * model     : the extracted Coq model (coq/C07/Model.v) through the wire format
@@ -113,7 +117,9 @@ class RealRun(object):
         self.depth = 0
         self.ncalls = 0
         self.maxdepth = 0
-        self.serial = 0
+        self.kept = {}          # (id, cls) -> the one Message object re-broadcast by 'B'
+        self.fresh = []         # objects made by 'Bf' (kept alive so that id() stays unique)
+        self.fresh_ids = set()
         self.seen = set()
         self.dup = None
         self.listeners = {}
@@ -137,10 +143,11 @@ class RealRun(object):
         if self.depth >= REAL_GUARD or self.ncalls > REAL_CALLS:
             raise Diverged()
         ev = (l, h, message.tag, self.cindex[type(message)])
-        k = (l, message._serial)
-        if k in self.seen and self.dup is None:
-            self.dup = ev
-        self.seen.add(k)
+        if id(message) in self.fresh_ids:      # an object that was broadcast once must reach a listener at most once
+            k = (l, id(message))
+            if k in self.seen and self.dup is None:
+                self.dup = ev
+            self.seen.add(k)
         self.log.append(('call',) + ev)
         self.depth += 1
         self.maxdepth = max(self.maxdepth, self.depth)
@@ -155,9 +162,14 @@ class RealRun(object):
         for a in script:
             k = a[0]
             if k == 'B':
-                m = self.classes[a[2]](None, tag=a[1])
-                self.serial += 1
-                m._serial = self.serial
+                m = self.kept.get((a[1], a[2]))
+                if m is None:
+                    m = self.kept[(a[1], a[2])] = self.classes[a[2]](None, tag=a[1])
+                hub.broadcast(m)
+            elif k == 'Bf':
+                m = self.classes[a[2]](None, tag=a[1])      # no attribute is added to the message: it must look like any other
+                self.fresh.append(m)
+                self.fresh_ids.add(id(m))
                 hub.broadcast(m)
             elif k == 'D':
                 self.log.append(OPEN)
@@ -282,7 +294,7 @@ def reference(case, guide=None):
     def run(script):
         for a in script:
             k = a[0]
-            if k == 'B':
+            if k in ('B', 'Bf'):
                 if ignore[a[2]] > 0:
                     continue
                 if st['open'] > 0:
@@ -354,7 +366,7 @@ def log_invariants(log):
 # ------------------------------------------------------------------ model
 def enc_action(a):
     k = a[0]
-    if k == 'B':
+    if k in ('B', 'Bf'):
         return (1, [a[1], a[2]])
     if k == 'D':
         return (2, [enc_action(x) for x in a[1]])
@@ -398,10 +410,10 @@ TREE = [0, 0, 1, 0]        # 0 root, 1 < 0, 2 < 1, 3 < 0   (a chain of three and
 EX_HANDLERS = [
     [],
     [('B', 900, 3)],                                             # broadcasts while being called
-    [('D', [('B', 901, 3)]), ('B', 902, 3)],                     # opens a delay block while being called (F-C07b)
+    [('D', [('B', 901, 3)]), ('Bf', 902, 3)],                    # opens a delay block while being called (F-C07b)
     [('UA', 1)],                                                 # removes the other listener
     [('S', 1, 3, 0, 0, 10), ('U', 0, 1)],                        # subscribes / unsubscribes
-    [('I', 3, [('B', 903, 3)]), ('D', [('D', [('B', 904, 3)])])],
+    [('I', 3, [('Bf', 903, 3)]), ('D', [('B', 904, 3), ('D', [('B', 904, 3)])])],   # the same object twice, across nested blocks
 ]
 EX_SETUPS = [
     # (name, initial subscriptions)
@@ -438,16 +450,57 @@ def scripts_of_size(n, atoms, ignore_classes, memo):
     return out
 
 
-def renumber(script, start=1):
-    """give the broadcasts of a script distinct identities in program order"""
+def renumber(script, start=1, mode='distinct', kind='Bf'):
+    """identities of the broadcasts of a script: mode 'distinct' = all different, in program order;
+    mode 'class' = one identity per class (so a class broadcast twice is the same identity twice); kind = 'B' | 'Bf'"""
     n = [start]
 
     def go(s):
         out = []
         for a in s:
-            if a[0] == 'B':
-                out.append(('B', n[0], a[2]))
-                n[0] += 1
+            if a[0] in ('B', 'Bf'):
+                if mode == 'distinct':
+                    out.append((kind, n[0], a[2]))
+                    n[0] += 1
+                else:
+                    out.append((kind, start + a[2], a[2]))
+            elif a[0] == 'D':
+                out.append(('D', go(a[1])))
+            elif a[0] == 'I':
+                out.append(('I', a[1], go(a[2])))
+            else:
+                out.append(a)
+        return out
+    return go(script)
+
+
+def broadcast_classes(script):
+    out = []
+    for a in script:
+        if a[0] in ('B', 'Bf'):
+            out.append(a[2])
+        elif a[0] == 'D':
+            out += broadcast_classes(a[1])
+        elif a[0] == 'I':
+            out += broadcast_classes(a[2])
+    return out
+
+
+def rand_identities(script, rng, base):
+    """random identities: about half of the broadcasts draw from a pool of two identities (so that an identity recurs
+    inside and outside delay blocks and across nested blocks), each either the kept object or a fresh equal-looking one"""
+    n = [base + 10]
+
+    def go(s):
+        out = []
+        for a in s:
+            if a[0] in ('B', 'Bf'):
+                kind = 'B' if rng.random() < 0.5 else 'Bf'
+                if rng.random() < 0.55:
+                    out.append((kind, base + 1 + rng.randrange(2), a[2]))
+                else:
+                    out.append((kind, n[0], a[2]))
+                    n[0] += 1
             elif a[0] == 'D':
                 out.append(('D', go(a[1])))
             elif a[0] == 'I':
@@ -508,10 +561,10 @@ def rand_case(rng, big):
     for h in range(1, nh):
         # handlers mostly broadcast leaf classes so that most cases terminate
         hs = rand_script(rng, rng.randint(0, 4 if big else 3), 2, ncls, nlst, nh, top=False)
-        handlers.append(renumber(hs, 100 * h))
+        handlers.append(rand_identities(hs, rng, 100 * h))
     setup = [rand_sub(rng, ncls, nlst, nh) for _ in range(rng.randint(1, 5))]
     script = rand_script(rng, rng.randint(2, 12 if big else 8), 4 if big else 3, ncls, nlst, nh, top=True)
-    return {'parents': parents, 'handlers': handlers, 'script': setup + renumber(script)}
+    return {'parents': parents, 'handlers': handlers, 'script': setup + rand_identities(script, rng, 0)}
 
 
 # ------------------------------------------------------------------ comparison
@@ -534,16 +587,58 @@ def features(case, ref):
                 f.add('raise-in-delay' if d > 0 else 'raise')
         return f
     f = walk(case['script'], 0, False)
+    f |= identity_features(case['script'], '')
     used = set(e[2] for e in log if e[0] == 'call')
     for h in used:
         if h < len(case['handlers']):
             hf = walk(case['handlers'][h], 0, True)
+            f |= identity_features(case['handlers'][h], 'handler-')
             f |= set('handler-' + x for x in hf)
             if any(a[0] in ('S', 'U', 'UA') for a in case['handlers'][h]):
                 f.add('handler-(un)subscribes')
-            if any(a[0] == 'B' for a in case['handlers'][h]):
+            if any(a[0] in ('B', 'Bf') for a in case['handlers'][h]):
                 f.add('handler-broadcasts')
     return calls, f
+
+
+def flat_broadcasts(script):
+    out = []
+    for a in script:
+        if a[0] in ('B', 'Bf'):
+            out.append(a)
+        elif a[0] == 'D':
+            out += flat_broadcasts(a[1])
+        elif a[0] == 'I':
+            out += flat_broadcasts(a[2])
+    return out
+
+
+def identity_features(script, prefix):
+    """does an identity recur: anywhere in the script / inside one outermost delay block; carried by the same object or not"""
+    f = set()
+
+    def repeated(bs, where):
+        seen = {}
+        for k, i, c in bs:
+            if (i, c) in seen:
+                same = k == 'B' and seen[(i, c)] == 'B'
+                f.add(prefix + 'identity-twice-' + where + (':same-object' if same else ':equal-looking-objects'))
+            seen.setdefault((i, c), k)
+    repeated(flat_broadcasts(script), 'in-script')
+
+    def blocks(s):
+        for a in s:
+            if a[0] == 'D':
+                repeated(flat_broadcasts(a[1]), 'in-one-delay-block')
+                if any(x[0] == 'D' for x in a[1]):
+                    inner = [b for x in a[1] if x[0] == 'D' for b in flat_broadcasts(x[1])]
+                    outer = [b for x in a[1] if x[0] != 'D' for b in flat_broadcasts([x])]
+                    if set((i, c) for _, i, c in inner) & set((i, c) for _, i, c in outer):
+                        f.add(prefix + 'identity-twice-across-nested-delay-blocks')
+            elif a[0] == 'I':
+                blocks(a[2])
+    blocks(script)
+    return f
 
 
 def first_diff(a, b):
@@ -707,7 +802,7 @@ def process(R, name, cases):
                        {'why': 'the implementation recurses without bound where the model terminates (order among equal priorities differs)'})
             continue
         calls, feats = features(case, ref)
-        key = enc_case(case)
+        key = (enc_case(case), ''.join('k' if b[0] == 'B' else 'f' for h in [case['script']] + case['handlers'] for b in flat_broadcasts(h)))
         R.count(key, nontrivial=calls > 0, stream=name, deliveries=min(calls, 12), handler_nesting=ref[3],
                 outcome='raised' if ref[1] else 'normal')
         for f in feats:
@@ -742,12 +837,18 @@ def stream_exhaustive(R):
         for n in range(1, nmax + 1):
             for s in scripts_of_size(n, EX_ATOMS, EX_IGNORE, memo):
                 cases.append({'parents': TREE, 'handlers': EX_HANDLERS, 'script': setup + renumber(s)})
+                bc = broadcast_classes(s)
+                if len(bc) != len(set(bc)):
+                    # a class broadcast twice: also as the SAME message object twice, and as two equal-looking objects
+                    cases.append({'parents': TREE, 'handlers': EX_HANDLERS, 'script': setup + renumber(s, 1, 'class', 'B')})
+                    cases.append({'parents': TREE, 'handlers': EX_HANDLERS, 'script': setup + renumber(s, 1, 'class', 'Bf')})
         ncases += len(cases)
         total += process(R, 'exhaustive/' + sname, cases)
     R.sample(case_json({'parents': TREE, 'handlers': EX_HANDLERS,
                         'script': EX_SETUPS[2][1] + renumber([('D', [('B', 0, 1), ('D', [('B', 0, 2)]), ('B', 0, 3)])])}))
     R.stream('exhaustive', cases=ncases, exhaustive=True, stats=dict(total),
              bound='every script of 1..4 action nodes (1..%d after the set-up "reentrant") over %d atoms (3 broadcasts, raise, 2 subscribes, unsubscribe, unsubscribe_all), '
+                   'each with all identities distinct and, when a class is broadcast twice, also with one identity per class carried by the same object / by equal-looking objects, '
                    'delay blocks and ignore blocks of class 2 nested freely, after each of %d fixed subscription set-ups; class tree %r; '
                    '6 handler scripts (record / broadcast / open a delay block / unsubscribe_all / subscribe+unsubscribe / ignore+nested delay)'
                    % (R.pick(4, 5), len(EX_ATOMS), len(EX_SETUPS), TREE))
